@@ -181,10 +181,7 @@ public:
       return false;
     const FunctionTemplateDecl *FT = Pattern->getDescribedFunctionTemplate();
     if (!FT)
-    {
-      // abbreviated / generic lambda: still a forwarding ref if the parm belongs to own template
-      return true;
-    }
+      return false; // T&& of an enclosing class template's parameter is a plain rvalue reference
     return TTP->getDepth() == FT->getTemplateParameters()->getDepth();
   }
 
